@@ -11,7 +11,7 @@ use zlib_rs::verif_cpu as cpu;
 pub const INFO: CheckInfo = CheckInfo {
     prop: "C09",
     level: "model_checking",
-    rule: "bounded exhaustive enumeration of (implementation variant x algorithm x data pattern x start value x buffer alignment 0..63 x every length in the bound), all 1- and 2-byte strings, every 2-piece split of fixed strings, every (|A|,|B|) pair for combine; each call compared with the definitional reference R1. A case is one (variant,algo,pattern,start,alignment) row; distinct_nontrivial counts distinct (variant,algo,len,result) outcomes. States = (variant, algo, len mod 64, len/64 class, NMAX class) reached; transitions = piecewise continuations between such states.",
+    rule: "bounded exhaustive enumeration of (implementation variant x algorithm x data pattern x start value x buffer alignment 0..63 x every length in the bound), all 1- and 2-byte strings, every 2-piece split of fixed strings, every (|A|,|B|) pair for combine; each call compared with the definitional reference R1. A case is one (variant,algo,pattern,start,alignment) row; distinct_nontrivial counts distinct (variant,algo,len,result) outcomes. States = (variant, algo, len mod 64, len/64 class, NMAX class) reached; transitions = piecewise continuations between such states. Family state-zero: messages followed by the complement of their own CRC (register 0 at a word boundary) x lengths x starts x 16 alignments x tails x variants, whole and in two pieces; Adler-32 first sums landing exactly on 65521.",
     assumptions: &[
         "only x86-64 variants executable on this CPU are covered: AVX2 adler, generic adler, PCLMULQDQ fold, braid (run-time mask H1) and, when the avx512 build exists, AVX-512 adler / VPCLMULQDQ fold; NEON/ACLE/LSX/wasm variants are NOT covered",
         "R1 is the definition: bitwise CRC-32, per-byte-modulo Adler-32 (self-tested against published check values)",
@@ -368,6 +368,73 @@ pub fn run(ctx: &mut Ctx) {
                         if libz_rs_sys::adler32(5, std::ptr::null(), 10) != 1 || libz_rs_sys::crc32(5, std::ptr::null(), 10) != 0 {
                             return Err("NULL buffer must yield the initial value".into());
                         }
+                        Ok(())
+                    })();
+                    cpu::set_cpu_mask(0);
+                    c.validated();
+                    r
+                },
+            );
+        }
+    }
+    // F6: data that drives the internal state of the checksum to a special value - a message followed by the
+    // complement of its own CRC (the CRC register becomes 0 at a word boundary, the value every table maps to 0), and
+    // Adler-32 sums that land exactly on 65521 (= 0 modulo BASE) at the end of a block or of the scalar tail
+    for (vi, (vname, mask)) in variants().into_iter().enumerate() {
+        for la in [0usize, 8, 16, 24, 32, 40, 56, 64, 72, 128, 256, 1024, 4096] {
+            ctx.case(
+                "state-zero",
+                || format!("variant={vname} crc32 of A || le32(!crc32(start, A)) || 00 00 00 00 || tail, |A|={la}, 3 starts x 16 alignments x 4 tails; adler32 sums landing on 65521"),
+                |c| {
+                    cpu::set_cpu_mask(mask);
+                    let r = (|| {
+                        let a = lcg_bytes(la as u32 + 7, la);
+                        for start in [0u32, 0xFFFF_FFFF, 0x1234_5678] {
+                            for tail in [0usize, 3, 8, 64] {
+                                for zeros in [4usize, 8, 12] {
+                                    let mut m = a.clone();
+                                    m.extend_from_slice(&(!r1::crc32(start, &a)).to_le_bytes());
+                                    m.extend(std::iter::repeat(0u8).take(zeros));
+                                    m.extend(lcg_bytes(3, tail));
+                                    let want = r1::crc32(start, &m);
+                                    for align in 0..16usize {
+                                        let base = arena.at_start(0);
+                                        let p = unsafe { base.add(64 + align) };
+                                        unsafe { std::ptr::copy_nonoverlapping(m.as_ptr(), p, m.len()) };
+                                        let got = run_algo(1, start, unsafe { std::slice::from_raw_parts(p, m.len()) });
+                                        c.exec();
+                                        if got != want {
+                                            return Err(format!("crc32({start:#x}, A || !crc(A) || {zeros} zero bytes || {tail}-byte tail) with |A|={la} at alignment {align} = {got:#010x}, definition gives {want:#010x}"));
+                                        }
+                                        // the same bytes in two pieces cut right after the embedded CRC
+                                        let cut = la + 4;
+                                        let s = unsafe { std::slice::from_raw_parts(p, m.len()) };
+                                        let got2 = run_algo(1, run_algo(1, start, &s[..cut]), &s[cut..]);
+                                        if got2 != want {
+                                            return Err(format!("crc32 of the same bytes in two pieces (cut at {cut}) = {got2:#010x}, definition gives {want:#010x}"));
+                                        }
+                                    }
+                                }
+                            }
+                        }
+                        // Adler-32: the first sum reaches exactly BASE with the last byte of a (tail) block
+                        if la <= 256 {
+                            for k in 1..=255u32 {
+                                for hi in [0u32, 1, 65520] {
+                                    let start = (hi << 16) | (65521 - k);
+                                    let mut m = rep(0, la);
+                                    m.push(k as u8);
+                                    let want = r1::adler32(start, &m);
+                                    let p = arena.put(&m, false);
+                                    let got = run_algo(0, start, unsafe { std::slice::from_raw_parts(p, m.len()) });
+                                    c.exec();
+                                    if got != want {
+                                        return Err(format!("adler32({start:#x}, {la} zero bytes + byte {k}) = {got:#010x}, definition gives {want:#010x}"));
+                                    }
+                                }
+                            }
+                        }
+                        c.outcome(hash_u32s(&[vi as u32, 9, la as u32]));
                         Ok(())
                     })();
                     cpu::set_cpu_mask(0);
